@@ -290,22 +290,56 @@ fn install_error_cause(interp: &mut Interpreter, this_obj: &Gc<JsObject>, args: 
     }
 }
 
+/// Shared body of the error constructors.  With `new` the fresh object arrives as
+/// `this`; called as a plain function (`throw Error("x")`) the error object is created
+/// here and returned.
+fn construct_error(
+    interp: &mut Interpreter,
+    this: JsValue,
+    args: &[JsValue],
+    name: &str,
+) -> Result<Guarded, JsError> {
+    let message = args.first().cloned().unwrap_or(JsValue::Undefined);
+    if let JsValue::Object(ref this_obj) = this {
+        initialize_error_on_this(interp, this_obj, name, message);
+        install_error_cause(interp, this_obj, args);
+        // the `new` handler returns the created object
+        return Ok(Guarded::unguarded(JsValue::Undefined));
+    }
+    let prototype = match name {
+        "TypeError" => interp.type_error_prototype.clone(),
+        "ReferenceError" => interp.reference_error_prototype.clone(),
+        "RangeError" => interp.range_error_prototype.clone(),
+        "SyntaxError" => interp.syntax_error_prototype.clone(),
+        _ => {
+            // EvalError / URIError: the prototype object hangs off the global constructor
+            let ctor_key = PropertyKey::String(interp.intern(name));
+            let proto_key = PropertyKey::String(interp.intern("prototype"));
+            let ctor = interp.global.borrow().get_property(&ctor_key);
+            match ctor {
+                Some(JsValue::Object(c)) => match c.borrow().get_property(&proto_key) {
+                    Some(JsValue::Object(p)) => p,
+                    _ => interp.error_prototype.clone(),
+                },
+                _ => interp.error_prototype.clone(),
+            }
+        }
+    };
+    let guard = interp.heap.create_guard();
+    let obj = guard.alloc();
+    obj.borrow_mut().prototype = Some(prototype);
+    initialize_error_on_this(interp, &obj, name, message);
+    install_error_cause(interp, &obj, args);
+    Ok(Guarded::with_guard(JsValue::Object(obj), guard))
+}
+
 /// Error constructor - sets name and message on `this`
 pub fn error_constructor(
     interp: &mut Interpreter,
     this: JsValue,
     args: &[JsValue],
 ) -> Result<Guarded, JsError> {
-    let message = args.first().cloned().unwrap_or(JsValue::Undefined);
-
-    // When called via `new Error()`, this is the newly created object
-    if let JsValue::Object(ref this_obj) = this {
-        initialize_error_on_this(interp, this_obj, "Error", message);
-        install_error_cause(interp, this_obj, args);
-    }
-
-    // Return undefined - new handler will return the created object
-    Ok(Guarded::unguarded(JsValue::Undefined))
+    construct_error(interp, this, args, "Error")
 }
 
 /// TypeError constructor
@@ -314,12 +348,7 @@ pub fn type_error_constructor(
     this: JsValue,
     args: &[JsValue],
 ) -> Result<Guarded, JsError> {
-    let message = args.first().cloned().unwrap_or(JsValue::Undefined);
-    if let JsValue::Object(ref this_obj) = this {
-        initialize_error_on_this(interp, this_obj, "TypeError", message);
-        install_error_cause(interp, this_obj, args);
-    }
-    Ok(Guarded::unguarded(JsValue::Undefined))
+    construct_error(interp, this, args, "TypeError")
 }
 
 /// RangeError constructor
@@ -328,12 +357,7 @@ pub fn range_error_constructor(
     this: JsValue,
     args: &[JsValue],
 ) -> Result<Guarded, JsError> {
-    let message = args.first().cloned().unwrap_or(JsValue::Undefined);
-    if let JsValue::Object(ref this_obj) = this {
-        initialize_error_on_this(interp, this_obj, "RangeError", message);
-        install_error_cause(interp, this_obj, args);
-    }
-    Ok(Guarded::unguarded(JsValue::Undefined))
+    construct_error(interp, this, args, "RangeError")
 }
 
 /// ReferenceError constructor
@@ -342,12 +366,7 @@ pub fn reference_error_constructor(
     this: JsValue,
     args: &[JsValue],
 ) -> Result<Guarded, JsError> {
-    let message = args.first().cloned().unwrap_or(JsValue::Undefined);
-    if let JsValue::Object(ref this_obj) = this {
-        initialize_error_on_this(interp, this_obj, "ReferenceError", message);
-        install_error_cause(interp, this_obj, args);
-    }
-    Ok(Guarded::unguarded(JsValue::Undefined))
+    construct_error(interp, this, args, "ReferenceError")
 }
 
 /// SyntaxError constructor
@@ -356,12 +375,7 @@ pub fn syntax_error_constructor(
     this: JsValue,
     args: &[JsValue],
 ) -> Result<Guarded, JsError> {
-    let message = args.first().cloned().unwrap_or(JsValue::Undefined);
-    if let JsValue::Object(ref this_obj) = this {
-        initialize_error_on_this(interp, this_obj, "SyntaxError", message);
-        install_error_cause(interp, this_obj, args);
-    }
-    Ok(Guarded::unguarded(JsValue::Undefined))
+    construct_error(interp, this, args, "SyntaxError")
 }
 
 /// URIError constructor
@@ -370,12 +384,7 @@ pub fn uri_error_constructor(
     this: JsValue,
     args: &[JsValue],
 ) -> Result<Guarded, JsError> {
-    let message = args.first().cloned().unwrap_or(JsValue::Undefined);
-    if let JsValue::Object(ref this_obj) = this {
-        initialize_error_on_this(interp, this_obj, "URIError", message);
-        install_error_cause(interp, this_obj, args);
-    }
-    Ok(Guarded::unguarded(JsValue::Undefined))
+    construct_error(interp, this, args, "URIError")
 }
 
 /// EvalError constructor
@@ -384,12 +393,7 @@ pub fn eval_error_constructor(
     this: JsValue,
     args: &[JsValue],
 ) -> Result<Guarded, JsError> {
-    let message = args.first().cloned().unwrap_or(JsValue::Undefined);
-    if let JsValue::Object(ref this_obj) = this {
-        initialize_error_on_this(interp, this_obj, "EvalError", message);
-        install_error_cause(interp, this_obj, args);
-    }
-    Ok(Guarded::unguarded(JsValue::Undefined))
+    construct_error(interp, this, args, "EvalError")
 }
 
 /// Create an error object from a JsError
